@@ -14,6 +14,7 @@ import (
 	"sort"
 	"strconv"
 	"strings"
+	"sync"
 	"time"
 
 	kv "github.com/XiXi-2024/xixi-kv"
@@ -105,7 +106,7 @@ func ErrName(err error) string {
 // other than "stuck", whose timeout is generous.
 func Guard(timeout time.Duration, fn func() error) (name string) {
 	done := make(chan string, 1)
-	go func() {
+	job := func() {
 		defer func() {
 			if r := recover(); r != nil {
 				buf := make([]byte, 1<<14)
@@ -115,7 +116,26 @@ func Guard(timeout time.Duration, fn func() error) (name string) {
 			}
 		}()
 		done <- ErrName(fn())
-	}()
+	}
+	// all engine calls of sequential drivers run on one long-lived goroutine, as they would in an ordinary
+	// single-threaded program (object pools are per-P: a goroutine per call would hide pool reuse)
+	workerMu.Lock()
+	if worker == nil {
+		worker = make(chan func())
+		go func(w chan func()) {
+			for f := range w {
+				f()
+			}
+		}(worker)
+	}
+	w := worker
+	workerMu.Unlock()
+	select {
+	case w <- job:
+	default:
+		// the worker is busy (a call parked by a schedule gate, or a concurrent driver): run this call on its own goroutine
+		go job()
+	}
 	deadline := time.After(timeout)
 	tick := time.NewTicker(100 * time.Millisecond)
 	defer tick.Stop()
@@ -136,10 +156,18 @@ func Guard(timeout time.Duration, fn func() error) (name string) {
 			buf := make([]byte, 1<<20)
 			n := runtime.Stack(buf, true)
 			fmt.Fprintf(os.Stderr, "STUCK engine call; goroutines:\n%s\n", buf[:n])
+			workerMu.Lock()
+			worker = nil
+			workerMu.Unlock()
 			return "stuck"
 		}
 	}
 }
+
+var (
+	workerMu sync.Mutex
+	worker   chan func()
+)
 
 // RunawayBytes is the heap size beyond which a call in flight counts as stuck.
 var RunawayBytes uint64 = 6 << 30
